@@ -349,17 +349,32 @@ def r5_eventtime(ctx: Context, rule="C16.R5") -> None:
             ok = t is not None and u is not None and norm(t) == f"-{o}.time" and norm(u) == f"{o}.unit"
     ctx.check(ok, rule, "EventTime.__sub__|self + (-other)", loc(sub), "negated operand in its own unit",
               f"__sub__ returns `{norm(rets[0].value) if rets else '?'}`")
-    for name, opcls, what in (("__eq__", ast.Eq, "=="), ("__lt__", ast.Lt, "<")):
-        fn = method(et, name)
+    # every comparison operator EventTime defines itself (the others are derived by total_ordering from __eq__/__lt__)
+    defined = methods(et)
+    for must in ("__eq__", "__lt__"):
+        if must not in defined:
+            raise AnalysisError(f"EventTime.{must} not found")
+    for name, what in (("__eq__", "=="), ("__ne__", "!="), ("__lt__", "<"), ("__le__", "<="), ("__gt__", ">"), ("__ge__", ">=")):
+        fn = defined.get(name)
+        if fn is None:
+            continue
         o = fn.args.args[1].arg
-        rets = [r for r in ast.walk(fn) if isinstance(r, ast.Return)]
-        if len(rets) != 1 or not isinstance(rets[0].value, ast.Compare):
+        paths = _ret_paths(fn)
+        if not paths:
             raise AnalysisError(f"EventTime.{name} shape not recognised")
-        c = rets[0].value
-        f = lin.formula(c, strip=False)
         want = lin.formula(ast.parse(f"(self - {o}).time {what} 0", mode="eval").body, strip=False)
-        ctx.check(lin.equivalent(f, want), rule, f"EventTime.{name}|via normalised difference", loc(fn), f"(self - other).time {what} 0",
-                  f"{name} returns `{norm(c)}`")
+        want_same = lin.formula(ast.parse(f"self.time {what} {o}.time", mode="eval").body, strip=False)
+        same = lin.formula(ast.parse(f"self.unit == {o}.unit", mode="eval").body, strip=False)
+        for conds, ret in paths:
+            pc = ("and", [lin.formula(t, strip=False) if pol == "T" else lin.f_not(lin.formula(t, strip=False)) for pol, t in conds]) if conds else ("const", True)
+            desc = " & ".join(f"{pol}:{norm(t)}" for pol, t in conds) or "always"
+            if isinstance(ret, ast.Constant) and ret.value is NotImplemented:
+                continue
+            f = lin.formula(ret, strip=False)
+            ok = lin.equivalent(f, want) or (lin.entails(pc, same) and lin.equivalent(f, want_same))
+            ctx.check(ok, rule, f"EventTime.{name}|path[{desc}] via normalised difference", loc(fn), f"(self - other).time {what} 0",
+                      f"{name} returns `{norm(ret)[:80]}` on the path [{desc}]: the order of two times no longer agrees with their "
+                      "microsecond values (for operands of different units / equal values)")
     h = method(et, "__hash__")
     rets = [r for r in ast.walk(h) if isinstance(r, ast.Return)]
     ok = len(rets) == 1 and norm(rets[0].value) in ("self.to(EventTime.Unit.US).time", "hash(self.to(EventTime.Unit.US).time)")
